@@ -1,20 +1,18 @@
 /-
 C02 — generated result types admit nothing no execution could return.
 
-Proved here: soundness of the executable decider of `RefLocal` the O stream uses; the wrapper-exactness of the leaf
-translation (`leafTs_exact`: the TypeScript type printed for a leaf of GraphQL type `ty` denotes EXACTLY the values
-`CompleteValue` allows — `null` at nullable positions only, lists element-wise, the named type's own values);
-`C02_leaf_exact` (a selected, unconditionally included leaf is a REQUIRED field with exactly that type);
-`C02_typename_literal` (`__typename`, under any response key, is the literal of the branch's object type, which
-admits exactly that string); `C02_keys_survive_extract` (the reading of `__SelectionSet` keeps exactly the keys the
-schema declaration declares); the kernel-checked witness of the defect of the pinned code that made C02 false
-(`aliased_typename_counterexample` — §9-b, repaired in /repo 72cec20) with the proof that the repaired model excludes
-the value.  The full statement is kept visible in the block "OPEN — carried by K/O only" at the end.
+Proved here: `C02_admits_only_local_executions` (the ⊇ direction of the refinement theorem `C01.impl_eq_refLocal`: every
+value without repeated record keys that the emitted type admits is a `RefLocal` response on a possible object type of the
+root), soundness of the executable decider of `RefLocal` the O stream uses; the wrapper-exactness of the leaf translation
+(`leafTs_exact`), `C02_leaf_exact`, `C02_typename_literal`, `C02_keys_survive_extract`; kernel-checked witnesses: the defect of
+the pinned code that made C02 false (`aliased_typename_counterexample` — §9-b, repaired in /repo 72cec20) with the proof
+that the repaired model excludes the value, and `repeated_key_counterexample` (why the value hypothesis is there).
 -/
 import NitroVerif.Lemmas.OpTypes
 import NitroVerif.Lemmas.TsSemSound
+import NitroVerif.Props.C01
 namespace NitroVerif.Props.C02
-open NitroVerif.Gql NitroVerif.Ts NitroVerif.OpTypes NitroVerif.Exec
+open NitroVerif.Gql NitroVerif.Ts NitroVerif.OpTypes NitroVerif.Exec NitroVerif.Props
 
 /-- The executable decider of the O stream only accepts members of `RefLocal`. -/
 theorem refLocalMem_sound (c : Ctx) :
@@ -129,18 +127,62 @@ theorem aliased_typename_repaired :
   · apply memG_sound 8; decide +kernel
   · decide +kernel
 
-/-
-OPEN — carried by K/O only (stated at full strength; not proved in budget)
+/-! ### C02 from the refinement theorem (Props/C01.lean `impl_eq_refLocal`, ⊇ direction) -/
 
-  theorem impl_eq_refLocal  (see Props/C01.lean — one refinement statement, two corollaries)
-  theorem C02_admits_only_local_executions :
-      implTree S (fragsOf D) (mfuelFor D) (fuelFor D) (rootOf X) X.sel = .ok t →
-      Mem (envOf S cfg) v (close (toTs ns t)) → ∃ o ∈ S.possibleTypes (rootOf X).unwrapped, RefLocal c o X.sel v
-  -- object fields: `treeTs` of a sub-tree denotes the union over its branches of the `__SelectionSet` records
-  -- (the leaf part is `leafTs_exact`, the key part `C02_keys_survive_extract`, `__typename` `C02_typename_literal`)
-  What carries these statements today: K (model = code, tree against tree) and O (`oracle.c02`: every abstract value
-  — responses and their single-point mutants: null, key dropped, extra key, foreign atom / string, other literal,
-  number, [] / singleton list, {} — that the REAL emitted type admits is in RefLocal; 0 failures after the repairs).
+open NitroVerif.OpTypes.Ref in
+/-- **C02.** Every value (without repeated record keys) that the emitted type admits is a response some execution
+    could return when the Boolean variables are re-chosen per selection set (`RefLocal`), on some possible object type of
+    the root: no missing key, no extra key, `null` only at nullable positions, `__typename` only the matching object
+    type's name, lists element-wise, merged same-key object fields exactly the merged selection set.  Hypotheses as in
+    `C01.impl_eq_refLocal` (declaration file faithful to the schema — `Hyp` —, unique type names, coherent document,
+    fuel of the executable specification sufficient). -/
+theorem C02_admits_only_local_executions {c : Ctx} {e : Env} {r : Refs} {orig : Name → Option (List Field)}
+    (H : Hyp c e r orig) (hnd : TypeNamesNodup c.S) {mfuel fuel D : Nat} {root : Name} {p : Pos} {ss : List Selection}
+    {T : SelTree} (h : implTree c.S c.F mfuel fuel (.nonNull (.named root p)) ss = .ok T)
+    (hC : ∀ d, Coh c d (Sb1 ss) root) (hf : FuelOk c D ss) {v : J} (hv : JWf v)
+    (hm : Mem e v (treeTs r T false)) : ∃ o ∈ c.S.possibleTypes root, RefLocal c o ss v :=
+  (C01.impl_eq_refLocal_root H hnd h hC hf v hv).1 hm
+
+open NitroVerif.OpTypes.Ref in
+/-- … for the type as emitted (references closed against the linked declaration table, real `__SelectionSet` hook) -/
+theorem C02_admits_only_local_executions_emitted {c : Ctx} (d : Decls) (ns : String)
+    {orig : Name → Option (List Field)}
+    (H : Hyp c { decls := d, appHook := SelSem.hook } ((Refs.ofNs ns).close d) orig)
+    (hnd : TypeNamesNodup c.S) {mfuel fuel D : Nat} {root : Name} {p : Pos} {ss : List Selection} {T : SelTree}
+    (h : implTree c.S c.F mfuel fuel (.nonNull (.named root p)) ss = .ok T) (hC : ∀ d, Coh c d (Sb1 ss) root)
+    (hf : FuelOk c D ss) {v : J} (hv : JWf v)
+    (hm : Mem { decls := d, appHook := SelSem.hook } v (globalise d [] [] (toTs ns T))) :
+    ∃ o ∈ c.S.possibleTypes root, RefLocal c o ss v :=
+  (C01.impl_eq_refLocal_emitted d ns H hnd h hC hf v hv).1 hm
+
+set_option maxRecDepth 16384 in
+open NitroVerif.OpTypes.Ref in
+/-- the hypotheses are satisfiable by a non-trivial input (witness schema + declaration file, the document
+    `{ a { x } a { y @skip(if: $v) } }`), and the theorem applies to a value the emitted type admits -/
+example : ∃ T, implTree W.ctx.S W.ctx.F 16 16 (.nonNull (.named "Query" {})) W.selA = .ok T ∧
+    Mem W.env (.obj [("a", W.respX)]) (treeTs Ref.W.r T false) ∧
+    ∃ o ∈ W.ctx.S.possibleTypes "Query", RefLocal W.ctx o W.selA (.obj [("a", W.respX)]) := by
+  have hm : Mem W.env (.obj [("a", W.respX)])
+      (treeTs Ref.W.r (implTree W.ctx.S W.ctx.F 16 16 (.nonNull (.named "Query" {})) W.selA).toOption.get! false) := by
+    apply memG_sound 12; decide +kernel
+  exact ⟨_, rfl, hm, C02_admits_only_local_executions Ref.W.hyp Ref.W.typeNamesNodup (mfuel := 16) (fuel := 16)
+    (root := "Query") (p := {}) rfl Ref.W.coh_selA Ref.W.fuelOk_selA (by simp [JWf, JWfFields, W.respX]) hm⟩
+
+open NitroVerif.OpTypes.Ref in
+/-- **Why ⊇ is stated for values without repeated record keys.** The value domain `J` of the TypeScript semantics allows a
+    record to list a key twice; the exact-key reading looks a key up by its FIRST entry.  The type emitted for
+    `{ x  y @skip(if: $v) }` on `A` admits `{ x: 1, y: <absent>, y: "s" }` (through the `y?: never` branch: the first `y` is
+    absent, and `y` is a declared key), which no execution returns.  No JSON parser produces such a value; the hypothesis
+    `JWf` of `C02_admits_only_local_executions` excludes exactly these. -/
+theorem repeated_key_counterexample :
+    (W.newTree.toOption.map fun t => W.close (toTs "Schema" t)) = some W.newTy ∧ Mem W.env Cex.dup W.newTy ∧
+    ¬ RefLocal W.ctx "A" (W.selX ++ W.selYskip) Cex.dup ∧ ¬ JWf Cex.dup :=
+  ⟨W.newTree_ty, Cex.dup_mem, Cex.dup_not_refLocal, Cex.dup_not_wf⟩
+
+/-
+OPEN — carried by K/O only: nothing of C02's statement except what `Props/C01.lean` lists (absence of panics of the
+model on spec-valid documents; model = code (K); the trusted reading of TypeScript; the hypotheses `Hyp` about the REAL
+schema declaration file, which the O stream tests on the real emitted files).
 -/
 
 end NitroVerif.Props.C02
